@@ -56,8 +56,9 @@ func init() {
 		ID:    "C08",
 		Title: "An acknowledged write to the persistent store stays visible to later searches",
 		Harnesses: []*HarnessSpec{
-			{Name: "H_C08_history", Tier: "quick", EngineReplay: true, What: "every history of 3..4 operations over AddWithID / Flush / forced rotation / search (twice) / EvictAllCaches / TriggerCompaction (served by the background worker before the next operation, or not yet), memtable limit one document / unlimited, compaction threshold 2, templates flat and flat+text+metadata; after the history and at every search: every acknowledged document returned, no never-added id, each id once, id set equal to an in-memory hybrid index holding the same documents", Covers: []string{"searched"}},
+			{Name: "H_C08_history", Tier: "quick", EngineReplay: true, What: "every history of 3..4 operations over AddWithID / Flush / forced rotation / search (twice) / EvictAllCaches / TriggerCompaction (served by the background worker before the next operation, or not yet), memtable limit one document / unlimited, compaction threshold 2, templates flat and flat+text+metadata; after the history and at every search: every acknowledged document returned, no never-added id, each id once, id set equal to an in-memory hybrid index holding the same documents (query exactly on one document; also with a distance threshold)", Covers: []string{"searched"}},
 			{Name: "H_C08_after_flush", Tier: "quick", What: "2 documents (one optionally removed again or updated), [rotation,] Flush, search, a later Add, three more searches: the single segment is cached by the first search, every acknowledged document stays visible", Covers: []string{"ran"}},
+			{Name: "H_C08_compact", Tier: "quick", What: "compaction of 2..3 single-document segments of one session (threshold = their number), each searched after its flush or never loaded, caches evicted or not, served by the background worker: every document visible afterwards, same id set as the in-memory index (also under a threshold)", Covers: []string{"compacted"}},
 			{Name: "H_C08_merge", Tier: "quick", What: "2..3 documents spread over 1..3 memtables (rotations) and optionally a segment: each id once, k applied after de-duplication, descending scores", Covers: []string{"ran"}},
 		},
 		Bounds:      []string{"histories of <=4 operations (5..7 are outside quick), <=4 documents", "background work at operation granularity (a pending compaction signal is served between two operations or not yet); finer interleavings are C11's"},
